@@ -182,6 +182,19 @@ func (g *refGen) acctSess(scope string, flags uint8, hostile bool) SessScript {
 		b.S[1] = []byte(hostileText(r, "tty"))
 		b.S[2] = []byte(hostileText(r, "addr"))
 	}
+	if seq < 250 && r.Chance(25) {
+		// a later record in the same session (watchdog update, stop), also one that names
+		// somebody else: every record is judged on the user it names
+		u2 := user
+		if r.Chance(60) {
+			u2 = g.pickUser(scope)
+		}
+		if r.Chance(25) {
+			u2 = "nobody" + r.Alnum(2)
+		}
+		f := SessAcct(s.Pkts[0].Session, s.Pkts[0].Ver, flags, seq+2, u2, PickOf(r, uint8(0x0a), 4, 8, 2), GenAcctArgs(r))
+		s.Pkts = append(s.Pkts, f.Pkts[0])
+	}
 	return s
 }
 
